@@ -224,9 +224,24 @@ func famLegit(r *Rng, o *Out, tier string) {
 					}
 					o.count("bound")
 				}
+				// the third party may hand out a CLONE taken before the proof was ever encoded: it is as good
+				var cloneEnc []byte
+				if r.Chance(1, 3) {
+					ops = append(ops, "clone")
+					if cl, err := dm.Clone(); err != nil {
+						outs = append(outs, "clone:err")
+					} else {
+						cloneEnc = mustEnc(cl)
+						outs = append(outs, "clone:"+hx(cloneEnc))
+					}
+					o.count("discharge.clonedBeforeEncode")
+				}
 				enc := mustEnc(dm)
 				ops = append(ops, "encode")
 				outs = append(outs, "enc:"+hx(enc))
+				if cloneEnc != nil {
+					enc = cloneEnc
+				}
 				o.emit(fmt.Sprintf("(proof.run %s %s %s %s %s (%s))", hx(u.p.ka), hs(u.p.loc), hx(u.ticket), hx(dm.Nonce.Rnd), hx(u.rn), strings.Join(ops, " ")), strings.Join(outs, " "))
 				ds = append(ds, enc)
 				if r.Bool() {
